@@ -656,6 +656,7 @@ func c05Check(s []sym, tight bool) *failure {
 		count("ungrammatical")
 	}
 	correspondNorm("P "+hx(text), map[bool]string{true: "ok", false: "err"}[acc], "accept/reject: model parse vs ValidateLicenses", k, okErr)
+	hookCorrespond(text, k, true, false, false)
 	if acc != want {
 		return &failure{Stream: "oracle", What: "acceptance differs from the documented grammar", Case: k, Impl: fmt.Sprint(acc), Expected: fmt.Sprint(want)}
 	}
@@ -753,6 +754,7 @@ func c05Word(w string) *failure {
 		acc := got.panicv == nil && got.ok
 		k := &kase{Expr: p.text, ExprHex: hx(p.text), Extra: map[string]string{"word": hx(w)}}
 		correspondNorm("P "+hx(p.text), map[bool]string{true: "ok", false: "err"}[acc], "accept/reject: model parse vs ValidateLicenses", k, okErr)
+		hookCorrespond(p.text, k, true, false, false)
 		if p.want {
 			nontrivial(p.text)
 		}
@@ -865,6 +867,7 @@ func init() {
 				acc := got.panicv == nil && got.ok
 				k := &kase{Expr: text, ExprHex: hx(text)}
 				correspondNorm("P "+hx(text), map[bool]string{true: "ok", false: "err"}[acc], "accept/reject with operator-like reference names: model parse vs ValidateLicenses", k, okErr)
+				hookCorrespond(text, k, true, acc, false)
 				if acc {
 					x := implExt(text)
 					correspondNorm("E "+hx(text), x.String(), "extracted terms with operator-like reference names: model vs implementation", k, extractSetNorm)
@@ -932,6 +935,7 @@ func init() {
 				acc := got.panicv == nil && got.ok
 				k := &kase{Expr: text, ExprHex: hx(text)}
 				correspondNorm("P "+hx(text), map[bool]string{true: "ok", false: "err"}[acc], "accept/reject in a lexical context: model parse vs ValidateLicenses", k, okErr)
+				hookCorrespond(text, k, true, acc, false)
 				if acc {
 					x := implExt(text)
 					correspondNorm("E "+hx(text), x.String(), "extracted terms in a lexical context: model vs implementation", k, extractSetNorm)
